@@ -29,6 +29,9 @@ CFG = gen.Config(kinds=['text', 'var', 'call', 'try', 'try', 'try', 'raise',
                         'let', 'unless', 'sub'],
                  max_depth=3, max_items=3, literals=False, eol=False)
 NS = gen.base_ns()
+NS_DEGRADED = {k: v for k, v in NS.items()
+               if k not in ('VfA', 'VfB', 'VfC', 'VfX', 'VfM', 'fa', 'vn',
+                            'ct', 's2')}
 
 
 def depth_of_exits(ast, d=0):
@@ -52,7 +55,12 @@ def run(case):
     except model.Unspecified:
         return 'unspecified', set()
     ev = w_m.interp.events
-    out_i, w_i, ns_i = harness.run_impl(src, sx, NS)
+    # the same compiled template has been rendered before, in a namespace
+    # in which exception classes and some values were missing (so that
+    # dtml-raise expressions, handlers and bodies took other paths)
+    tmpl = harness.make_template(src, sx)
+    harness.run_impl(src, sx, NS_DEGRADED, template=tmpl)
+    out_i, w_i, ns_i = harness.run_impl(src, sx, NS, template=tmpl)
     no_m, no_i = harness.norm_outcome(out_m), harness.norm_outcome(out_i)
     if no_m != no_i:
         kind = 'outcome:%s-instead-of-%s' % (no_i[0], no_m[0])
